@@ -110,6 +110,7 @@ def mc_cfg(inst, body):
          " Subs <- MCSubs", " SubKind <- MCSubKind", " SubCap <- MCSubCap", " SubPol <- MCSubPol",
          " MaxTasks = %d" % inst["max_tasks"], " CbReads = %s" % ("TRUE" if inst["cb_reads"] else "FALSE"),
          " FineReg = %s" % ("TRUE" if inst.get("fine_reg") else "FALSE"),
+         " StopTimeouts = %s" % ("TRUE" if inst.get("stop_timeouts") else "FALSE"),
          " Defects <- MCDefects"]
     return "\n".join(c) + "\n" + body + "\n"
 
